@@ -1,6 +1,7 @@
 package main
 
 import (
+	"sync"
 	"fmt"
 	"go/constant"
 	"go/token"
@@ -454,7 +455,17 @@ func (e *Enc) resolveCompSpec(m string, pkgPath string) []string {
 	return nil
 }
 
+// typesMu serialises go/types evaluation: types.Eval adds scopes to the shared package
+// objects, and functions are verified concurrently.
+var typesMu sync.Mutex
+
 func (e *Enc) evalType(s string, pkg *types.Package) (types.Type, error) {
+	typesMu.Lock()
+	defer typesMu.Unlock()
+	return e.evalTypeU(s, pkg)
+}
+
+func (e *Enc) evalTypeU(s string, pkg *types.Package) (types.Type, error) {
 	s = strings.TrimSpace(s)
 	switch s {
 	case "ref":
@@ -469,10 +480,10 @@ func (e *Enc) evalType(s string, pkg *types.Package) (types.Type, error) {
 	// allow fully qualified "*path/to/pkg.Type" / "[]*path/to/pkg.Type"
 	if strings.Contains(s, "/") && (strings.HasPrefix(s, "*") || strings.HasPrefix(s, "[]")) && !strings.Contains(s, "map[") {
 		if strings.HasPrefix(s, "*") {
-			if t, err := e.evalType(s[1:], pkg); err == nil {
+			if t, err := e.evalTypeU(s[1:], pkg); err == nil {
 				return types.NewPointer(t), nil
 			}
-		} else if t, err := e.evalType(s[2:], pkg); err == nil {
+		} else if t, err := e.evalTypeU(s[2:], pkg); err == nil {
 			return types.NewSlice(t), nil
 		}
 	}
